@@ -64,6 +64,10 @@ class P:
         k = rng.random()
         if k < 0.2:
             return rng.choice([0, 1, MAXV[f], MAXV[f] - 1, MAXV[f] // 2 + 1])
+        if k < 0.3:
+            # round numbers and their neighbours (where the number of digits changes), powers of two likewise
+            c = [v for e in range(1, 10) for v in (10 ** e - 1, 10 ** e, 10 ** e + 1)] + [v for e in range(1, 32) for v in (2 ** e - 1, 2 ** e)]
+            return rng.choice([v for v in c if v <= MAXV[f]])
         return rng.randint(0, MAXV[f])
 
     def addr_family(self, rng):
